@@ -21,6 +21,7 @@ class Inst:
         self.counter = 0
         self.assume = []
         self.vars = {}
+        self.kinds = {}
         self.tag = tag
         self.value = self._mk(("struct", schema.top), schema.top)
 
@@ -37,6 +38,8 @@ class Inst:
 
     def _mk(self, t, path):
         k = t[0]
+        if k in ("u", "i", "enum", "f32", "f64"):
+            self.kinds[path] = (k, t[1] if k in ("u", "i") else None)
         if k == "u":
             return self._int(path, 0, (1 << t[1]) - 1)
         if k == "i":
